@@ -61,6 +61,9 @@ class WatchScenario(Scenario):
         return ()
 
     def serve_fault(self, env: Env, req: Request) -> str | None:
+        if self.params.get('first_list_fault') and req.method == 'get' and not req.params.get('watch') and not env.counters.get('first-list'):
+            env.count('first-list')
+            return str(self.params['first_list_fault'])      # the very first listing fails once (the client retries after its backoff)
         # scripted: from `throttled_at` on, the next N list/watch requests are answered 429 (N > the client's retries: the request escalates)
         th = self.params.get('throttled')
         if th and req.method == 'get' and env.now >= float(th[0]) and env.counters.get('throttled', 0) < int(th[1]):
@@ -221,8 +224,13 @@ class WatchScenario(Scenario):
         for r in env.world.requests:
             for a, b in pause_windows:
                 if a < r.t_issued < b:
+                    # the structural pattern of a known defect: a LIST whose earlier attempt failed before the pause is retried (after its
+                    # backoff) inside the pause - the listing is not interruptible by the pause, only the watch request is
+                    earlier = [q for q in env.world.requests if q.rid < r.rid and q.path == r.path and q.method == r.method and not q.params.get('watch')
+                               and q.fault and q.t_issued <= a]
+                    retry = not r.params.get('watch') and bool(earlier) and not any(q for q in env.world.requests if earlier[-1].rid < q.rid < r.rid and q.path == r.path)
                     out.append(self.viol(env, 'request-while-paused', f"t={r.t_issued}: {r.method} {r.path}{'?watch' if r.params.get('watch') else ''} issued while paused ({a}..{b})",
-                                         clause='pause'))
+                                         clause='pause', how='retry-of-list-in-backoff' if retry else 'other'))
         # unknown ERROR events must end the stream with an exception
         if err_injected:
             delivered_err = any(k == 'deliver' and isinstance(p.get('item'), tuple) and p['item'][0] == 'ERROR' for _, k, p in env.obs)
@@ -303,6 +311,9 @@ def watch_scenarios(tier: str) -> tuple[list[WatchScenario], list[WatchScenario]
         for n429 in (2, 3, 5):
             user = [(2.0, 'create', 'a'), (4.0, how), (4.5, 'modify', 'a'), (6.0, 'create', 'b'), (12.0, 'modify', 'b'), (13.0, 'delete', 'a')]
             scripted.append(WatchScenario(user=user, pre=['z'], horizon=45.0, throttled=[4.0, n429]))
+    # the very first listing fails (connection refused) and is retried after the client's backoff (0.5 s); the operator is paused in between
+    for t_pause in (0.25, 0.5, 0.75):
+        scripted.append(WatchScenario(user=[(t_pause, 'pause'), (4.0, 'create', 'a'), (6.0, 'resume'), (8.0, 'create', 'b')], pre=['z'], horizon=30.0, first_list_fault='conn'))
     # inactivity: no events for longer than the inactivity timeout, then a change
     scripted.append(WatchScenario(user=[(2.0, 'create', 'a'), (30.0, 'modify', 'a'), (31.0, 'delete', 'a')], pre=[], horizon=70.0))
     # resource versions are opaque: the same scripts with versions that gain a digit in mid-history (99 -> 100, 9 -> 10)
